@@ -146,3 +146,10 @@ Proof. exact shipped_described_ok. Qed.
 Theorem C17_entry_order_irrelevant : forall T k req opt wild kv kv', t_dict T k = Some (req, opt, wild) -> Permutation kv kv' ->
   valid T k (CDict kv) = valid T k (CDict kv').
 Proof. exact valid_dict_perm. Qed.
+(* whatever is wrong with a configuration, construction fails with a schema error or a value error; TypeError is the class by which the model
+   marks the inputs outside its domain (custom `module:name` strings, keys that are not strings, `area` values that are not pairs of integer
+   pairs) -- on those the check does not compare *)
+Theorem C17_rejection_classes : forall T c e, build T c = Err e -> e = SchemaError \/ e = ValueError \/ e = TypeError.
+Proof. exact build_errors. Qed.
+Theorem C17_entry_rejection_classes : forall T c fk e, fn T fk c = Err e -> e = SchemaError \/ e = ValueError \/ e = TypeError.
+Proof. intros T c. exact (proj1 (fn_errors T c)). Qed.
